@@ -417,6 +417,13 @@ fn gen_c01(r: &mut Rng, t: Tier, job: u64) -> Plan {
     if job < giants + mediums {
         return gen_medium_inbound(r);
     }
+    if job % 3_000 == 1_500 {
+        // bytes of an earlier command must not come back in (or displace bytes of) a later one:
+        // a parameter streamed once, in a large or a small chunk, and sent inline ever after
+        let period = *r.pick(&[1usize, 2, 3, 10, 256]);
+        let first = *r.pick(&[1_100_000usize, 1_048_576, 2_000_000, 70_000, 20]);
+        return super::props2::gen_long_life_after_long_data(r, period, first);
+    }
     let n = 1 + r.usize_below(12);
     let mut cmds = Vec::new();
     let mut have_stmt = false;
@@ -1103,7 +1110,7 @@ pub fn c05() -> Simple {
         thorough: 5_000_000,
         budget_q: 60,
         budget_t: 600,
-        owns: &["seq-ids", "panic", "end", "resp-malformed", "auth-reply"],
+        owns: &["seq-ids", "panic", "end", "resp-malformed", "auth-reply", "stall"],
         gen: gen_c05,
         extra: None,
         assumptions: COMMON_ASSUME,
